@@ -10,9 +10,10 @@
 * `System.g_islands` / `System.j_islands` (ipadd branch): residual rows of islanded buses are zeroed,
   the stored `gy` entries (a,a),(v,v) become `diag_eps`, (a,v),(v,a) become zero.
 * `ConnMan.init/_update/record/act` (andes/core/connman.py) with `Group.find_idx(allow_all=True)`
-  and `Group.set` as they are written, including: `record` overwrites `changes['off']`, a `None` placeholder
-  reaches `Group.set` as soon as two buses are switched off in one change.  (`find_idx(allow_all=True)` returns the
-  matches of every model since its repair.)
+  and `Group.set` as they are written.  Since the repairs in /repo: `find_idx(allow_all=True)` returns the matches of
+  every model, `act` drops the `None` placeholders of buses without a device in the group, `record` keeps the
+  switch-offs that were recorded but not acted upon yet, and `connectivity` does not enter its sweep when every bus
+  is islanded (and then lists the singletons only).
 
 Loops carry explicit fuel; running out of fuel is a distinct result (`none` / `Err.fuel`) which
 `Andes/Proofs/Island.lean` proves unreachable.  No Mathlib import. -/
@@ -94,7 +95,9 @@ def outer (n : Nat) (es : List Edge) (isl : List Nat) :
 
 /-- `Bus.island_sets` -/
 def islandSets (n : Nat) (es : List Edge) : Except Err (List (List Nat)) :=
-  outer n es (islanded n es) (2 * n + 2) [] [] 0 0
+  -- `while len(self.Bus.islanded_buses) < n:` — the islanded buses do not change inside the loop, so the guard is
+  -- decided once (on the pinned tree the loop was `while True` and walked past `n`: `all-islanded-indexerror`, repaired)
+  if n ≤ (islanded n es).length then .ok [] else outer n es (islanded n es) (2 * n + 2) [] [] 0 0
 
 /-- an enabled/disabled slack generator on bus `bus` (uid) -/
 structure Slack where
@@ -117,7 +120,7 @@ def mswIslands (sl : List Slack) (sets : List (List Nat)) : List Nat :=
 
 /-- `Bus.islands` -/
 def islandsOf (n : Nat) (isl : List Nat) (sets : List (List Nat)) : List (List Nat) :=
-  isl.map (fun b => [b]) ++ (if sets.isEmpty then [List.range n] else sets)
+  isl.map (fun b => [b]) ++ (if sets.isEmpty && isl.isEmpty then [List.range n] else sets)
 
 structure Result where
   islanded : List Nat
@@ -181,34 +184,23 @@ def modelMatches (m : List Dev) (k b : Nat) : List Nat :=
 (on the pinned tree: those of the FIRST model that has any — finding `find-idx-first-model-only`, repaired) -/
 def firstMatches (ms : List (List Dev)) (k b : Nat) : List Nat := ms.flatMap fun m => modelMatches m k b
 
-/-- `list_flatten(grp.find_idx(keys=src_k, values=offbus_idx, ...))`; `none` is Python's `None` -/
-def grpDevsFlat (g : Grp) (offs : List Nat) (k : Nat) : List (Option Nat) :=
-  offs.flatMap fun b =>
-    if (firstMatches g.models k b).isEmpty then [none] else (firstMatches g.models k b).map some
-
-/-- `devices_flat` of `ConnMan.act` for one group -/
-def devicesFlat (g : Grp) (offs : List Nat) : List (Option Nat) :=
-  (List.range g.nsrc).flatMap fun k =>
-    if grpDevsFlat g offs k == [none] then [] else grpDevsFlat g offs k
+/-- `devices_flat` of `ConnMan.act` for one group: for every bus field and every switched-off bus the matches of
+every model; the `None` placeholder `find_idx` returns for a bus without a device of the group is filtered out
+(on the pinned tree it reached `Group.set` as soon as two buses were off: finding `bus-off-none-keyerror`, repaired) -/
+def devicesFlat (g : Grp) (offs : List Nat) : List Nat :=
+  (List.range g.nsrc).flatMap fun k => offs.flatMap fun b => firstMatches g.models k b
 
 /-- `Group.set(src='u', attr='v', idx=ids, value=0)` -/
 def setOff (g : Grp) (ids : List Nat) : Grp :=
   { g with models := g.models.map fun m => m.map fun d => if ids.contains d.id then { d with u := false } else d }
 
 /-- one iteration of the `for grp_name, src_list in bus_deps.items()` loop -/
-def actGroup (g : Grp) (offs : List Nat) : Except Err Grp :=
+def actGroup (g : Grp) (offs : List Nat) : Grp :=
   let dv := devicesFlat g offs
-  if dv.isEmpty then .ok g
-  else if dv.contains none then .error .keyError
-  else .ok (setOff g (dv.filterMap id))
+  if dv.isEmpty then g else setOff g dv
 
-/-- the whole group loop; on a `KeyError` the groups already processed keep their new statuses -/
-def actGroups : List Grp → List Nat → List Grp × Option Err
-  | [], _ => ([], none)
-  | g :: rest, offs =>
-    match actGroup g offs with
-    | .error e => (g :: rest, some e)
-    | .ok g' => let r := actGroups rest offs; (g' :: r.1, r.2)
+/-- the whole group loop -/
+def actGroups (gs : List Grp) (offs : List Nat) : List Grp := gs.map fun g => actGroup g offs
 
 structure CM where
   busIdx : List Nat      -- Bus.idx.v
@@ -226,9 +218,14 @@ def cmOff (s : CM) : List Bool := List.zipWith (fun u0 u => u0 && !u) s.busu0 s.
 /-- `ConnMan._update` -/
 def cmUpdate (s : CM) : CM := { s with on := cmOn s, off := cmOff s, busu0 := s.busU }
 
-/-- `ConnMan.record`; the error is raised after the state has been updated -/
+/-- `ConnMan.record`; the error is raised after the state has been updated.  Buses recorded as switched off by an
+earlier call and not acted upon yet (`is_needed`) stay pending as long as they are off (on the pinned tree the new
+record overwrote them: finding `record-overwrites-off`, repaired) -/
 def cmRecord (s : CM) : CM × Option Err :=
-  let s1 := cmUpdate s
+  let s0 := cmUpdate s
+  let s1 := if s.needed
+    then { s0 with off := List.zipWith (fun p u => p && !u) (List.zipWith (· || ·) s0.off s.off) s.busU }
+    else s0
   if s1.on.any id then ({ s1 with needed := true }, some .notImplemented)
   else if s1.off.any id then ({ s1 with needed := true }, none)
   else (s1, none)
@@ -247,14 +244,10 @@ def cmAct (s : CM) : CM × Option Err :=
   if !s.needed then (s, none)
   else if (offIdx s).isEmpty then (s, none)
   else
-    let r := actGroups s.grps (offIdx s)
-    match r.2 with
-    | some e => ({ s with grps := r.1 }, some e)
-    | none =>
-      let s1 := cmUpdate { s with grps := r.1, needed := false }
-      match islandSets s1.busIdx.length (edgesOf s1) with
-      | .error e => (s1, some e)
-      | .ok _ => (s1, none)
+    let s1 := cmUpdate { s with grps := actGroups s.grps (offIdx s), needed := false }
+    match islandSets s1.busIdx.length (edgesOf s1) with
+    | .error e => (s1, some e)
+    | .ok _ => (s1, none)
 
 /-- `ConnMan.init` as called at the end of `System.setup` -/
 def cmInit (s : CM) : CM × Option Err :=
